@@ -10,6 +10,12 @@
 // client handed to the patcher is wrapped so that (1) every API call is recorded and
 // (2) objects cross it as JSON, as they do on the wire to a real API server (the bare
 // fake deep-copies the caller's Go values instead).
+//
+// Second case class (Input.Session): the fake cluster also serves CRD kinds in several API
+// groups (Input.Registry, registered in the given order), objects are identified by
+// groupVersion|Kind/namespace/name, and the documents form several executions that go one
+// after the other through ONE ObjectPatcher against one cluster; after every execution the
+// whole cluster is listed.  Model: C13_GModel.v, predicate: C13_GSpec.P_gsession.
 package c13
 
 import (
@@ -70,16 +76,35 @@ type Doc struct {
 	Namespace string         `json:"namespace,omitempty"`
 	Name      string         `json:"name,omitempty"`
 	NoAPIVer  bool           `json:"noApiVersion,omitempty"`
-	Sub       string         `json:"subresource,omitempty"`
-	Ignore    bool           `json:"ignoreMissingObject,omitempty"`
-	Merge     map[string]any `json:"mergePatch,omitempty"`
-	JP        []JP           `json:"jsonPatch,omitempty"`
-	JQ        *JQ            `json:"jq,omitempty"`
+	// APIVersion is the explicit apiVersion of a delete / patch document ("" = "v1"; not written when NoAPIVer)
+	APIVersion string `json:"apiVersion,omitempty"`
+	// Exec numbers the execution (patch file) the document belongs to; only sessions use it.
+	// Consecutive documents with the same number form one patch file.
+	Exec   int            `json:"exec,omitempty"`
+	Sub    string         `json:"subresource,omitempty"`
+	Ignore bool           `json:"ignoreMissingObject,omitempty"`
+	Merge  map[string]any `json:"mergePatch,omitempty"`
+	JP     []JP           `json:"jsonPatch,omitempty"`
+	JQ     *JQ            `json:"jq,omitempty"`
+}
+
+// Reg registers a kind in a groupVersion on the fake cluster (a CRD).  The order of the
+// registrations is the order of the cluster's discovery: the first groupVersion that was
+// registered for a kind is its preferred one.
+type Reg struct {
+	GV   string `json:"gv"`
+	Kind string `json:"kind"`
 }
 
 type Input struct {
 	Initial []map[string]any `json:"initial"`
 	Docs    []Doc            `json:"docs"`
+	// Session: the second case class.  The cluster serves the kinds of Registry (besides
+	// ConfigMap and Secret in v1), objects are identified by groupVersion|Kind/namespace/name,
+	// and the documents are split into executions (Doc.Exec) that go one after the other
+	// through ONE ObjectPatcher against one cluster.
+	Session  bool  `json:"session,omitempty"`
+	Registry []Reg `json:"registry,omitempty"`
 	// Operator: "", "json" or "yaml" — additionally run the rendering through the real
 	// operator (hook process writes the patch file; ShellOperator.taskHandler handles the run)
 	Operator string `json:"operator,omitempty"`
@@ -125,6 +150,10 @@ type Obs struct {
 	Operator  *OpObs `json:"operator,omitempty"`
 	SameOps   bool   `json:"same_ops"`
 	SameTyped bool   `json:"same_typed_ops"`
+	// sessions: one entry per execution
+	SJSON     []RunObs `json:"session_json,omitempty"`
+	SYAML     []RunObs `json:"session_yaml,omitempty"`
+	SOperator []OpObs  `json:"session_operator,omitempty"`
 }
 
 // ---- rendering of the stream ----
@@ -175,6 +204,9 @@ func specMap(d Doc) map[string]any {
 	target := func() {
 		if !d.NoAPIVer {
 			m["apiVersion"] = "v1"
+			if d.APIVersion != "" {
+				m["apiVersion"] = d.APIVersion
+			}
 		}
 		m["kind"], m["name"] = d.Kind, d.Name
 		if d.Namespace != "" {
@@ -292,9 +324,12 @@ func RenderYAML(docs []Doc) string {
 
 // ---- the cluster ----
 
-var kindOfResource = map[string]string{"configmaps": "ConfigMap", "secrets": "Secret"}
+var kindOfResource = map[string]string{"configmaps": "ConfigMap", "secrets": "Secret", "widgets": "Widget", "gadgets": "Gadget"}
 
 func objKey(kind, ns, name string) string { return kind + "/" + ns + "/" + name }
+
+// gKey is the object key of the session class: the groupVersion is part of the identity.
+func gKey(gv, kind, ns, name string) string { return gv + "|" + objKey(kind, ns, name) }
 
 // wire: the dynamic client the patcher sees.  Objects are passed as JSON (as on the
 // wire) and calls are recorded.
@@ -305,14 +340,33 @@ type wireClient struct {
 
 func (w *wireClient) Dynamic() dynamic.Interface { return w.dyn }
 
+// GroupVersionResource is the client's own.  The FAKE client has no discovery cache: where
+// the real client invalidates its cache and then reports "... is not supported by cluster"
+// (client.go APIResourceList / APIResource), the fake dereferences the nil cache.  That nil
+// dereference, and nothing else, is turned into the error the real client returns.
+func (w *wireClient) GroupVersionResource(apiVersion, kind string) (gvr schema.GroupVersionResource, err error) {
+	defer func() {
+		if r := recover(); r != nil {
+			gvr = schema.GroupVersionResource{}
+			err = fmt.Errorf("apiVersion '%s', kind '%s' is not supported by cluster: not found", apiVersion, kind)
+		}
+	}()
+	return w.Client.GroupVersionResource(apiVersion, kind)
+}
+
 type wireDyn struct {
-	under dynamic.Interface
-	rec   *[]Call
+	under  dynamic.Interface
+	rec    *[]Call
+	withGV bool // session class: recorded keys carry the groupVersion the call went to
 }
 
 func (w wireDyn) Resource(gvr schema.GroupVersionResource) dynamic.NamespaceableResourceInterface {
 	u := w.under.Resource(gvr)
-	return wireRes{ResourceInterface: u, under: u, rec: w.rec, kind: kindOfResource[gvr.Resource]}
+	kind := kindOfResource[gvr.Resource]
+	if w.withGV {
+		kind = gvr.GroupVersion().String() + "|" + kind
+	}
+	return wireRes{ResourceInterface: u, under: u, rec: w.rec, kind: kind}
 }
 
 type wireRes struct {
@@ -379,10 +433,17 @@ func (r wireRes) Delete(ctx context.Context, name string, o metav1.DeleteOptions
 var namespaces = []string{"default", "ns2"}
 var kinds = []string{"ConfigMap", "Secret"}
 
-func newCluster(initial []map[string]any) (*fake.Cluster, error) {
+func newCluster(initial []map[string]any, registry ...Reg) (*fake.Cluster, error) {
 	c := fake.NewFakeCluster(fake.ClusterVersionV119)
 	for _, ns := range namespaces {
 		c.CreateNs(ns)
+	}
+	for _, r := range registry {
+		gv, err := schema.ParseGroupVersion(r.GV)
+		if err != nil {
+			return nil, err
+		}
+		c.RegisterCRD(gv.Group, gv.Version, r.Kind, true)
 	}
 	for _, o := range initial {
 		u, err := overWire(&unstructured.Unstructured{Object: o})
@@ -418,7 +479,10 @@ func Project(o map[string]any) map[string]any {
 	return out
 }
 
-func dumpCluster(c *fake.Cluster) ([]ObjOut, error) {
+func dumpCluster(c *fake.Cluster, registry ...Reg) ([]ObjOut, error) {
+	if registry != nil {
+		return dumpSessionCluster(c, registry)
+	}
 	var out []ObjOut
 	for _, kind := range kinds {
 		gvr, err := c.Client.GroupVersionResource("v1", kind)
@@ -445,6 +509,40 @@ func dumpCluster(c *fake.Cluster) ([]ObjOut, error) {
 	return out, nil
 }
 
+// dumpSessionCluster lists every resource of the session class: ConfigMap and Secret in v1
+// and every registered (groupVersion, kind); keys carry the groupVersion that HOLDS the object.
+func dumpSessionCluster(c *fake.Cluster, registry []Reg) ([]ObjOut, error) {
+	all := append([]Reg{{GV: "v1", Kind: "ConfigMap"}, {GV: "v1", Kind: "Secret"}}, registry...)
+	seen := map[Reg]bool{}
+	var out []ObjOut
+	for _, r := range all {
+		if seen[r] {
+			continue
+		}
+		seen[r] = true
+		gvr, err := c.Client.GroupVersionResource(r.GV, r.Kind)
+		if err != nil {
+			return nil, err
+		}
+		l, err := c.Client.Dynamic().Resource(gvr).Namespace("").List(context.TODO(), metav1.ListOptions{})
+		if err != nil {
+			return nil, err
+		}
+		for _, it := range l.Items {
+			var m map[string]any
+			b, _ := it.MarshalJSON()
+			dec := json.NewDecoder(bytes.NewReader(b))
+			dec.UseNumber()
+			if err := dec.Decode(&m); err != nil {
+				return nil, err
+			}
+			out = append(out, ObjOut{Key: gKey(r.GV, r.Kind, it.GetNamespace(), it.GetName()), Obj: Project(m)})
+		}
+	}
+	sort.Slice(out, func(i, j int) bool { return out[i].Key < out[j].Key })
+	return out, nil
+}
+
 func classify(err error) string {
 	s := err.Error()
 	switch {
@@ -452,6 +550,8 @@ func classify(err error) string {
 		return "AlreadyExists"
 	case strings.Contains(s, "failed to apply jqFilter"):
 		return "JqFailed"
+	case strings.Contains(s, "is not supported by cluster"):
+		return "NotServed"
 	case strings.Contains(s, "not found"):
 		return "NotFound"
 	case strings.Contains(s, "error in ") || strings.Contains(s, "operation does not apply") || strings.Contains(s, "doc is missing"):
@@ -460,27 +560,11 @@ func classify(err error) string {
 	return "Other"
 }
 
-// runOne: the sequence of operator.go:667-676 on one rendering.
-func runOne(initial []map[string]any, text string) (ro RunObs) {
+// execFile: the sequence of operator.go:667-676 on one patch file: ParseOperations; on an
+// error stop; ExecuteOperations.  [calls] is the recorder of the patcher's client.
+func execFile(patcher *objectpatch.ObjectPatcher, text string, calls *[]Call, ro *RunObs) {
 	ro.Text = text
-	defer func() {
-		if r := recover(); r != nil {
-			st := string(debug.Stack())
-			if len(st) > 7000 {
-				st = st[:7000]
-			}
-			ro.Crash = fmt.Sprintf("panic: %v\n%s", r, st)
-		}
-	}()
-	cluster, err := newCluster(initial)
-	if err != nil {
-		ro.Crash = "harness: cannot build the initial cluster: " + err.Error()
-		return ro
-	}
-	var calls []Call
-	client := &wireClient{Client: cluster.Client, dyn: wireDyn{under: cluster.Client.Dynamic(), rec: &calls}}
-	patcher := objectpatch.NewObjectPatcher(client, log.NewNop())
-
+	from := len(*calls)
 	operations, err := objectpatch.ParseOperations([]byte(text))
 	if err != nil {
 		ro.ParseErr = err.Error()
@@ -518,12 +602,100 @@ func runOne(initial []map[string]any, text string) (ro RunObs) {
 			}
 		}
 	}
-	ro.Calls = calls
+	ro.Calls = append([]Call(nil), (*calls)[from:]...)
+}
+
+func crashText(r any) string {
+	st := string(debug.Stack())
+	if len(st) > 7000 {
+		st = st[:7000]
+	}
+	return fmt.Sprintf("panic: %v\n%s", r, st)
+}
+
+// runOne: one execution against a fresh cluster and a fresh ObjectPatcher.
+func runOne(initial []map[string]any, text string) (ro RunObs) {
+	ro.Text = text
+	defer func() {
+		if r := recover(); r != nil {
+			ro.Crash = crashText(r)
+		}
+	}()
+	cluster, err := newCluster(initial)
+	if err != nil {
+		ro.Crash = "harness: cannot build the initial cluster: " + err.Error()
+		return ro
+	}
+	var calls []Call
+	client := &wireClient{Client: cluster.Client, dyn: wireDyn{under: cluster.Client.Dynamic(), rec: &calls}}
+	patcher := objectpatch.NewObjectPatcher(client, log.NewNop())
+	execFile(patcher, text, &calls, &ro)
 	ro.Cluster, err = dumpCluster(cluster)
 	if err != nil {
 		ro.Crash = "harness: cannot list the cluster: " + err.Error()
 	}
 	return ro
+}
+
+// splitExecs groups consecutive documents with the same Exec number into patch files.
+func splitExecs(docs []Doc) [][]Doc {
+	var files [][]Doc
+	for i, d := range docs {
+		if i == 0 || d.Exec != docs[i-1].Exec {
+			files = append(files, nil)
+		}
+		files[len(files)-1] = append(files[len(files)-1], d)
+	}
+	return files
+}
+
+func registryOrEmpty(in Input) []Reg {
+	if in.Registry == nil {
+		return []Reg{}
+	}
+	return in.Registry
+}
+
+// runSession: every execution of the session, in order, through ONE ObjectPatcher against
+// ONE cluster (the operator builds its ObjectPatcher once and hands every hook run's patch
+// file to it).  After each execution the whole cluster is listed.
+func runSession(in Input, render func([]Doc) string) (out []RunObs) {
+	files := splitExecs(in.Docs)
+	defer func() {
+		if r := recover(); r != nil {
+			out = append(out, RunObs{Crash: crashText(r)})
+		}
+	}()
+	reg := registryOrEmpty(in)
+	cluster, err := newCluster(in.Initial, reg...)
+	if err != nil {
+		return []RunObs{{Crash: "harness: cannot build the initial cluster: " + err.Error()}}
+	}
+	var calls []Call
+	client := &wireClient{Client: cluster.Client, dyn: wireDyn{under: cluster.Client.Dynamic(), rec: &calls, withGV: true}}
+	patcher := objectpatch.NewObjectPatcher(client, log.NewNop())
+	for _, f := range files {
+		var ro RunObs
+		func() {
+			defer func() {
+				if r := recover(); r != nil {
+					ro.Crash = crashText(r)
+				}
+			}()
+			execFile(patcher, render(f), &calls, &ro)
+		}()
+		if ro.Crash == "" {
+			ro.Cluster, err = dumpCluster(cluster, reg...)
+			if err != nil {
+				ro.Crash = "harness: cannot list the cluster: " + err.Error()
+			}
+		}
+		out = append(out, ro)
+		if ro.Crash != "" {
+			break
+		}
+	}
+	return out
 }
 
 func sameStrings(a, b []string) bool {
@@ -538,8 +710,36 @@ func sameStrings(a, b []string) bool {
 	return true
 }
 
+func sameSession(a, b []RunObs, typed bool) bool {
+	if len(a) != len(b) {
+		return false
+	}
+	for i := range a {
+		if a[i].ParseOK != b[i].ParseOK {
+			return false
+		}
+		if typed && !sameStrings(a[i].OpsTyped, b[i].OpsTyped) || !typed && !sameStrings(a[i].Ops, b[i].Ops) {
+			return false
+		}
+	}
+	return true
+}
+
 func Run(in Input) Obs {
 	var o Obs
+	if in.Session {
+		o.SJSON = runSession(in, RenderJSON)
+		o.SYAML = runSession(in, RenderYAML)
+		o.SameOps = sameSession(o.SJSON, o.SYAML, false)
+		o.SameTyped = sameSession(o.SJSON, o.SYAML, true)
+		switch in.Operator {
+		case "json":
+			o.SOperator = runOperatorSession(in, RenderJSON)
+		case "yaml":
+			o.SOperator = runOperatorSession(in, RenderYAML)
+		}
+		return o
+	}
 	o.JSON = runOne(in.Initial, RenderJSON(in.Docs))
 	o.YAML = runOne(in.Initial, RenderYAML(in.Docs))
 	o.SameOps = o.JSON.ParseOK == o.YAML.ParseOK && sameStrings(o.JSON.Ops, o.YAML.Ops)
@@ -577,65 +777,81 @@ cat "$VERIF_C13_PATCH" > "$KUBERNETES_PATCH_PATH"
 // $KUBERNETES_PATCH_PATH; the operator (assembled around the fake cluster, its
 // ObjectPatcher given the recording client) handles a HookRun task with its own
 // taskHandler -> handleRunHook (operator.go:647-676).
-func runOperator(initial []map[string]any, text string) (oo OpObs) {
+func runOperator(initial []map[string]any, text string) OpObs {
+	return runOperatorTexts(initial, nil, []string{text})[0]
+}
+
+func runOperatorSession(in Input, render func([]Doc) string) []OpObs {
+	var texts []string
+	for _, f := range splitExecs(in.Docs) {
+		texts = append(texts, render(f))
+	}
+	return runOperatorTexts(in.Initial, registryOrEmpty(in), texts)
+}
+
+// runOperatorTexts: one operator, one hook run per text (registry == nil: first case class).
+func runOperatorTexts(initial []map[string]any, registry []Reg, texts []string) (out []OpObs) {
+	fail := func(msg string) []OpObs { return append(out, OpObs{Crash: msg}) }
 	defer func() {
 		if r := recover(); r != nil {
 			st := string(debug.Stack())
 			if len(st) > 5000 {
 				st = st[:5000]
 			}
-			oo.Crash = fmt.Sprintf("panic: %v\n%s", r, st)
+			out = append(out, OpObs{Crash: fmt.Sprintf("panic: %v\n%s", r, st)})
 		}
 	}()
 	dir, err := os.MkdirTemp(tmpBase(), "c13-")
 	if err != nil {
-		oo.Crash = "harness: " + err.Error()
-		return oo
+		return fail("harness: " + err.Error())
 	}
 	defer os.RemoveAll(dir)
 	hooksDir, tmpDir := filepath.Join(dir, "hooks"), filepath.Join(dir, "tmp")
 	for _, d := range []string{hooksDir, tmpDir} {
 		if err := os.MkdirAll(d, 0o755); err != nil {
-			oo.Crash = "harness: " + err.Error()
-			return oo
+			return fail("harness: " + err.Error())
 		}
 	}
 	patchFile := filepath.Join(dir, "patch.txt")
-	if err := os.WriteFile(patchFile, []byte(text), 0o644); err == nil {
-		err = os.WriteFile(filepath.Join(hooksDir, "hook.sh"), []byte(hookScript), 0o755)
-	}
-	if err != nil {
-		oo.Crash = "harness: " + err.Error()
-		return oo
+	if err := os.WriteFile(filepath.Join(hooksDir, "hook.sh"), []byte(hookScript), 0o755); err != nil {
+		return fail("harness: " + err.Error())
 	}
 	os.Setenv("VERIF_C13_PATCH", patchFile)
-	cluster, err := newCluster(initial)
+	cluster, err := newCluster(initial, registry...)
 	if err != nil {
-		oo.Crash = "harness: cannot build the initial cluster: " + err.Error()
-		return oo
+		return fail("harness: cannot build the initial cluster: " + err.Error())
 	}
 	kubeeventsmanager.DefaultFactoryStore.Reset()
 	ctx, cancel := context.WithCancel(context.Background())
 	defer cancel()
 	op, err := shell_operator.VerifAssemble(ctx, cluster.Client, hooksDir, tmpDir, log.NewNop())
 	if err != nil {
-		oo.Crash = "harness: cannot assemble the operator: " + err.Error()
-		return oo
+		return fail("harness: cannot assemble the operator: " + err.Error())
 	}
 	var calls []Call
-	op.ObjectPatcher = objectpatch.NewObjectPatcher(&wireClient{Client: cluster.Client, dyn: wireDyn{under: cluster.Client.Dynamic(), rec: &calls}}, log.NewNop())
-	t := task.NewTask(task_metadata.HookRun).WithQueueName("main").WithMetadata(task_metadata.HookMetadata{
-		HookName: "hook.sh", BindingType: htypes.OnStartup, Binding: string(htypes.OnStartup),
-		BindingContext: []bctx.BindingContext{{Binding: string(htypes.OnStartup)}},
-	})
-	res := op.VerifTaskHandler(t)
-	oo.Status = string(res.Status)
-	oo.Calls = calls
-	oo.Cluster, err = dumpCluster(cluster)
-	if err != nil {
-		oo.Crash = "harness: cannot list the cluster: " + err.Error()
+	// as the operator does: ONE ObjectPatcher for every hook run
+	op.ObjectPatcher = objectpatch.NewObjectPatcher(&wireClient{Client: cluster.Client,
+		dyn: wireDyn{under: cluster.Client.Dynamic(), rec: &calls, withGV: registry != nil}}, log.NewNop())
+	for _, text := range texts {
+		var oo OpObs
+		if err := os.WriteFile(patchFile, []byte(text), 0o644); err != nil {
+			return fail("harness: " + err.Error())
+		}
+		from := len(calls)
+		t := task.NewTask(task_metadata.HookRun).WithQueueName("main").WithMetadata(task_metadata.HookMetadata{
+			HookName: "hook.sh", BindingType: htypes.OnStartup, Binding: string(htypes.OnStartup),
+			BindingContext: []bctx.BindingContext{{Binding: string(htypes.OnStartup)}},
+		})
+		res := op.VerifTaskHandler(t)
+		oo.Status = string(res.Status)
+		oo.Calls = append([]Call(nil), calls[from:]...)
+		oo.Cluster, err = dumpCluster(cluster, registry...)
+		if err != nil {
+			oo.Crash = "harness: cannot list the cluster: " + err.Error()
+		}
+		out = append(out, oo)
 	}
-	return oo
+	return out
 }
 
 // ---- rendering for Coq ----
@@ -658,31 +874,16 @@ func keyOfObject(o map[string]any) string {
 	return objKey(kind, ns, name)
 }
 
-func coqDoc(d Doc) string {
-	if d.Bad != "" {
-		return "DBad"
-	}
-	key := coqKey(objKey(d.Kind, d.Namespace, d.Name))
-	patch := func(body string) string {
-		return fmt.Sprintf("DOp (OPatch %s (%s) %s %s)", key, body, core.CoqBytes(d.Sub), core.CoqBool(d.Ignore))
-	}
+var coqCreateMode = map[string]string{"Create": "CPlain", "CreateOrUpdate": "COrUpdate", "CreateIfNotExists": "CIfNotExists"}
+var coqDelMode = map[string]string{"Delete": "DForeground", "DeleteInBackground": "DBackground", "DeleteNonCascading": "DNonCascading"}
+
+// coqPatchBody: the patch of a MergePatch / JSONPatch / JQPatch document as a C13_Model.patch_body ("" otherwise)
+func coqPatchBody(d Doc) string {
 	switch d.Operation {
-	case "Create":
-		return "DOp (OCreate CPlain " + core.CoqJSON(d.Object) + ")"
-	case "CreateOrUpdate":
-		return "DOp (OCreate COrUpdate " + core.CoqJSON(d.Object) + ")"
-	case "CreateIfNotExists":
-		return "DOp (OCreate CIfNotExists " + core.CoqJSON(d.Object) + ")"
-	case "Delete":
-		return "DOp (ODelete DForeground " + key + ")"
-	case "DeleteInBackground":
-		return "DOp (ODelete DBackground " + key + ")"
-	case "DeleteNonCascading":
-		return "DOp (ODelete DNonCascading " + key + ")"
 	case "MergePatch":
-		return patch("PMerge " + core.CoqJSON(d.Merge))
+		return "PMerge " + core.CoqJSON(d.Merge)
 	case "JSONPatch":
-		return patch("PJson " + core.CoqList(d.JP, func(p JP) string {
+		return "PJson " + core.CoqList(d.JP, func(p JP) string {
 			switch p.Op {
 			case "add":
 				return fmt.Sprintf("JPAdd %s %s", coqPath(p.Path), core.CoqJSON(p.Value))
@@ -690,17 +891,34 @@ func coqDoc(d Doc) string {
 				return fmt.Sprintf("JPReplace %s %s", coqPath(p.Path), core.CoqJSON(p.Value))
 			}
 			return "JPRemove " + coqPath(p.Path)
-		}))
+		})
 	case "JQPatch":
 		switch d.JQ.Kind {
 		case "set":
-			return patch(fmt.Sprintf("PJq (JQSet %s (JStr %s))", coqPath(d.JQ.Path), core.CoqBytes(d.JQ.Value)))
+			return fmt.Sprintf("PJq (JQSet %s (JStr %s))", coqPath(d.JQ.Path), core.CoqBytes(d.JQ.Value))
 		case "del":
-			return patch("PJq (JQDel " + coqPath(d.JQ.Path) + ")")
+			return "PJq (JQDel " + coqPath(d.JQ.Path) + ")"
 		case "err":
-			return patch("PJq JQErr")
+			return "PJq JQErr"
 		}
-		return patch("PJq JQId")
+		return "PJq JQId"
+	}
+	return ""
+}
+
+func coqDoc(d Doc) string {
+	if d.Bad != "" {
+		return "DBad"
+	}
+	key := coqKey(objKey(d.Kind, d.Namespace, d.Name))
+	if m := coqCreateMode[d.Operation]; m != "" {
+		return "DOp (OCreate " + m + " " + core.CoqJSON(d.Object) + ")"
+	}
+	if m := coqDelMode[d.Operation]; m != "" {
+		return "DOp (ODelete " + m + " " + key + ")"
+	}
+	if body := coqPatchBody(d); body != "" {
+		return fmt.Sprintf("DOp (OPatch %s (%s) %s %s)", key, body, core.CoqBytes(d.Sub), core.CoqBool(d.Ignore))
 	}
 	return "DBad"
 }
@@ -716,7 +934,215 @@ func coqRun(r RunObs) string {
 		coqCluster(r.Cluster), core.CoqBool(r.Crash != ""))
 }
 
+// ---- rendering of the session class ----
+
+func docAPI(d Doc) string {
+	if d.NoAPIVer {
+		return ""
+	}
+	if d.APIVersion != "" {
+		return d.APIVersion
+	}
+	return "v1"
+}
+
+func coqAddr(d Doc) string {
+	return fmt.Sprintf("(mkAddr %s %s %s %s)", core.CoqBytes(docAPI(d)), core.CoqBytes(d.Kind), core.CoqBytes(d.Namespace), core.CoqBytes(d.Name))
+}
+
+// coqGDoc: the document as a C13_GModel.gdoc.
+func coqGDoc(d Doc) string {
+	if d.Bad != "" {
+		return "GDBad"
+	}
+	if m := coqCreateMode[d.Operation]; m != "" {
+		return "GDOp (GCreate " + m + " " + core.CoqJSON(d.Object) + ")"
+	}
+	if m := coqDelMode[d.Operation]; m != "" {
+		return "GDOp (GDelete " + m + " " + coqAddr(d) + ")"
+	}
+	if body := coqPatchBody(d); body != "" {
+		return fmt.Sprintf("GDOp (GPatch %s (%s) %s %s)", coqAddr(d), body, core.CoqBytes(d.Sub), core.CoqBool(d.Ignore))
+	}
+	return "GDBad"
+}
+
+// Discovery is the cluster's discovery as far as the kinds of the session class go: v1 with
+// ConfigMap and Secret, then the registered groupVersions in the order of their first
+// registration (fake.Cluster.RegisterCRD appends a kind to the resource list of its
+// groupVersion, or a new resource list at the end).
+func Discovery(registry []Reg) [][2]any {
+	type list struct {
+		gv    string
+		kinds []string
+	}
+	lists := []*list{{gv: "v1", kinds: []string{"ConfigMap", "Secret"}}}
+	for _, r := range registry {
+		var l *list
+		for _, x := range lists {
+			if x.gv == r.GV {
+				l = x
+			}
+		}
+		if l == nil {
+			l = &list{gv: r.GV}
+			lists = append(lists, l)
+		}
+		dup := false
+		for _, k := range l.kinds {
+			dup = dup || k == r.Kind
+		}
+		if !dup {
+			l.kinds = append(l.kinds, r.Kind)
+		}
+	}
+	var out [][2]any
+	for _, l := range lists {
+		out = append(out, [2]any{l.gv, l.kinds})
+	}
+	return out
+}
+
+func coqDiscovery(registry []Reg) string {
+	return core.CoqList(Discovery(registry), func(l [2]any) string {
+		return fmt.Sprintf("(%s, %s)", core.CoqBytes(l[0].(string)), core.CoqList(l[1].([]string), core.CoqBytes))
+	})
+}
+
+func gKeyOfObject(o map[string]any) string {
+	av, _ := o["apiVersion"].(string)
+	return av + "|" + keyOfObject(o)
+}
+
+// servedIn: the groupVersions that serve the kind, in discovery order.
+func servedIn(registry []Reg, kind string) []string {
+	var out []string
+	for _, l := range Discovery(registry) {
+		for _, k := range l[1].([]string) {
+			if k == kind {
+				out = append(out, l[0].(string))
+			}
+		}
+	}
+	return out
+}
+
+func renderSession(in Input, obs *Obs, crash string) core.Case {
+	var o Obs
+	if obs != nil {
+		o = *obs
+	} else {
+		o.SJSON, o.SYAML = []RunObs{{Crash: "child: " + crash}}, []RunObs{{Crash: "child: " + crash}}
+	}
+	var init []ObjOut
+	for _, ob := range in.Initial {
+		init = append(init, ObjOut{Key: gKeyOfObject(ob), Obj: ob})
+	}
+	sort.Slice(init, func(i, j int) bool { return init[i].Key < init[j].Key })
+	files := splitExecs(in.Docs)
+	c := core.Case{}
+	opr := "None"
+	if o.SOperator != nil {
+		opr = "(Some " + core.CoqList(o.SOperator, func(x OpObs) string {
+			st := map[string]string{"Success": "OSuccess", "Fail": "OFail"}[x.Status]
+			if st == "" || x.Crash != "" {
+				st = "OOther"
+			}
+			return fmt.Sprintf("(mkOpRun %s %s\n     %s)", st, core.CoqList(x.Calls, coqCall), coqCluster(x.Cluster))
+		}) + ")"
+		c.Tags = append(c.Tags, "operator-run:"+in.Operator)
+	}
+	runs := func(rs []RunObs) string {
+		return core.CoqList(rs, func(r RunObs) string { return "(" + coqRun(r) + ")" })
+	}
+	c.Coq = fmt.Sprintf("KSession (mkSession %s\n   %s\n   %s\n   %s\n   %s\n   %s %s\n   %s)", coqDiscovery(in.Registry), coqCluster(init),
+		core.CoqList(files, func(f []Doc) string { return core.CoqList(f, coqGDoc) }),
+		runs(o.SJSON), runs(o.SYAML), core.CoqBool(o.SameOps), core.CoqBool(o.SameTyped), opr)
+	c.JSON = o
+	kb, _ := json.Marshal(in)
+	c.Key = string(kb)
+	c.Tags = append(c.Tags, "class:session", fmt.Sprintf("executions:%d", len(files)), fmt.Sprintf("docs:%d", len(in.Docs)),
+		fmt.Sprintf("initial:%d", len(in.Initial)))
+	// how the documents spell the apiVersion of the kinds they address
+	spellings := map[string]map[string]bool{}
+	bad := 0
+	for _, d := range in.Docs {
+		if d.Bad != "" {
+			bad++
+			c.Tags = append(c.Tags, "fault:"+d.Bad)
+			continue
+		}
+		c.Tags = append(c.Tags, "op:"+d.Operation)
+		kind, api := d.Kind, docAPI(d)
+		if d.Object != nil {
+			kind, _ = d.Object["kind"].(string)
+			api, _ = d.Object["apiVersion"].(string)
+		}
+		served := servedIn(in.Registry, kind)
+		if len(served) >= 2 {
+			c.Tags = append(c.Tags, "kind-in-several-groups")
+		}
+		switch {
+		case api == "":
+			c.Tags = append(c.Tags, "apiVersion:omitted")
+		case len(served) > 0 && api == served[0]:
+			c.Tags = append(c.Tags, "apiVersion:explicit-preferred")
+		default:
+			isServed := false
+			for _, g := range served {
+				isServed = isServed || g == api
+			}
+			if isServed {
+				c.Tags = append(c.Tags, "apiVersion:explicit-not-preferred")
+			} else {
+				c.Tags = append(c.Tags, "apiVersion:not-served")
+			}
+		}
+		if spellings[kind] == nil {
+			spellings[kind] = map[string]bool{}
+		}
+		spellings[kind][api] = true
+	}
+	for _, sp := range spellings {
+		if len(sp) >= 2 {
+			c.Tags = append(c.Tags, "one-kind-differing-apiVersions")
+			break
+		}
+	}
+	// the same kind/namespace/name present in two groups at the start
+	byName := map[string]int{}
+	for _, ob := range in.Initial {
+		byName[keyOfObject(ob)]++
+	}
+	for _, n := range byName {
+		if n >= 2 {
+			c.Tags = append(c.Tags, "namesakes-in-two-groups")
+			break
+		}
+	}
+	if len(o.SJSON) > 0 {
+		for _, r := range o.SJSON {
+			for _, e := range r.Errors {
+				c.Tags = append(c.Tags, "apply-error:"+e)
+			}
+			if r.Crash != "" {
+				c.Tags = append(c.Tags, "crash")
+			}
+		}
+	}
+	if bad > 0 {
+		c.Tags = append(c.Tags, "stream:invalid")
+	} else {
+		c.Tags = append(c.Tags, "stream:valid")
+	}
+	c.Nontrivial = len(in.Docs) >= 2
+	return c
+}
+
 func Render(in Input, obs *Obs, crash string) core.Case {
+	if in.Session {
+		return renderSession(in, obs, crash)
+	}
 	var o Obs
 	if obs != nil {
 		o = *obs
@@ -738,7 +1164,7 @@ func Render(in Input, obs *Obs, crash string) core.Case {
 		opr = fmt.Sprintf("(Some (mkOpRun %s %s\n     %s))", st, core.CoqList(o.Operator.Calls, coqCall), coqCluster(o.Operator.Cluster))
 		c.Tags = append(c.Tags, "operator-run:"+in.Operator, "operator-status:"+o.Operator.Status)
 	}
-	c.Coq = fmt.Sprintf("mkCase %s\n   %s\n   (%s)\n   (%s)\n   %s %s\n   %s", coqCluster(init), core.CoqList(in.Docs, coqDoc),
+	c.Coq = fmt.Sprintf("KRun (mkCase %s\n   %s\n   (%s)\n   (%s)\n   %s %s\n   %s)", coqCluster(init), core.CoqList(in.Docs, coqDoc),
 		coqRun(o.JSON), coqRun(o.YAML), core.CoqBool(o.SameOps), core.CoqBool(o.SameTyped), opr)
 	c.JSON = o
 	kb, _ := json.Marshal(in)
@@ -1104,7 +1530,274 @@ func Gen(r *core.Rng, tier string) ([]core.In[Input], bool) {
 			ins = append(ins, core.In[Input]{Input: bad, Stream: "single-fault"})
 		}
 	}
+	// the session class has its own PRNG stream: the streams above do not depend on it
+	ins = genSessions(&gen{r: r.Fork()}, tier, ins)
 	return ins, false
+}
+
+// ---- generation of the session class ----
+
+var sessGVs = []string{"example.io/v1", "legacy.example.io/v1", "apps.example.org/v1beta1"}
+var sessKinds = []string{"Widget", "Gadget"}
+var sessNames = []string{"w1", "w2"}
+
+// registry: every multi-group kind is served by a random ordered non-empty subset of the
+// groupVersions (Widget mostly by two or three); the registrations are shuffled, so that the
+// discovery order - and with it the preferred groupVersion of each kind - varies.
+func (g *gen) registry() []Reg {
+	var regs []Reg
+	for ki, kind := range sessKinds {
+		n := 1 + g.r.Intn(len(sessGVs))
+		if ki == 0 && n == 1 && g.r.Chance(85) {
+			n = 2 + g.r.Intn(len(sessGVs)-1)
+		}
+		perm := g.perm(len(sessGVs))
+		for _, i := range perm[:n] {
+			regs = append(regs, Reg{GV: sessGVs[i], Kind: kind})
+		}
+	}
+	perm := g.perm(len(regs))
+	out := make([]Reg, len(regs))
+	for i, p := range perm {
+		out[i] = regs[p]
+	}
+	return out
+}
+
+func (g *gen) perm(n int) []int {
+	p := make([]int, n)
+	for i := range p {
+		p[i] = i
+	}
+	for i := n - 1; i > 0; i-- {
+		j := g.r.Intn(i + 1)
+		p[i], p[j] = p[j], p[i]
+	}
+	return p
+}
+
+func (g *gen) sessKind() string {
+	switch k := g.r.Intn(100); {
+	case k < 62:
+		return "Widget"
+	case k < 82:
+		return "Gadget"
+	}
+	return "ConfigMap"
+}
+
+func (g *gen) sessNs() string {
+	if g.r.Chance(80) {
+		return "default"
+	}
+	return "ns2"
+}
+
+// a groupVersion the cluster does not serve the kind in: one of the other groups, or an unknown one
+func (g *gen) unservedGV(served []string) string {
+	var cands []string
+	for _, gv := range append([]string{"v1", "nope.example.io/v1"}, sessGVs...) {
+		in := false
+		for _, s := range served {
+			in = in || s == gv
+		}
+		if !in {
+			cands = append(cands, gv)
+		}
+	}
+	return g.pick(cands)
+}
+
+// session: a registry, an initial cluster in which names are mostly shared between the
+// groups, and 1-3 executions of 1-3 documents each.  A delete / patch document has no
+// apiVersion (30 %) or one of the groupVersions serving its kind; a create document's object
+// names one of them.  unservedPct: chance of a document naming a groupVersion that does not
+// serve the kind.
+func (g *gen) session(intPct, fgPct, unservedPct int) Input {
+	in := Input{Session: true, Registry: g.registry()}
+	type ident struct{ kind, ns, name string }
+	present := map[string]bool{} // gKey
+	var idents []ident
+	seenIdent := map[ident]bool{}
+	addIdent := func(id ident) {
+		if !seenIdent[id] {
+			seenIdent[id] = true
+			idents = append(idents, id)
+		}
+	}
+	objectOf := func(gv, kind, ns, name string) map[string]any {
+		o := g.object(kind, ns, name, intPct)
+		o["apiVersion"] = gv
+		return o
+	}
+	for _, kind := range []string{"Widget", "Gadget", "ConfigMap"} {
+		served := servedIn(in.Registry, kind)
+		for _, ns := range namespaces {
+			for _, name := range sessNames {
+				// the name exists in the cluster at all?
+				if !g.r.Chance(map[string]int{"default": 50, "ns2": 15}[ns]) {
+					continue
+				}
+				for _, gv := range served {
+					if g.r.Chance(70) {
+						in.Initial = append(in.Initial, objectOf(gv, kind, ns, name))
+						present[gKey(gv, kind, ns, name)] = true
+						addIdent(ident{kind, ns, name})
+					}
+				}
+			}
+		}
+	}
+	target := func(pct int) ident {
+		if len(idents) > 0 && g.r.Chance(pct) {
+			return idents[g.r.Intn(len(idents))]
+		}
+		return ident{g.sessKind(), g.sessNs(), g.pick(sessNames)}
+	}
+	apiFor := func(kind string, allowOmitted bool) (string, bool) {
+		served := servedIn(in.Registry, kind)
+		if g.r.Chance(unservedPct) || len(served) == 0 {
+			return g.unservedGV(served), false
+		}
+		if allowOmitted && g.r.Chance(30) {
+			return "", true
+		}
+		return g.pick(served), false
+	}
+	asString := func() string {
+		switch g.r.Intn(10) {
+		case 0, 1:
+			return "yaml"
+		case 2:
+			return "json"
+		}
+		return ""
+	}
+	nExec := 1 + g.r.Intn(3)
+	for e := 0; e < nExec; e++ {
+		nDocs := 1 + g.r.Intn(3)
+		for i := 0; i < nDocs; i++ {
+			d := Doc{Exec: e}
+			switch k := g.r.Intn(100); {
+			case k < 22:
+				d.Operation = []string{"Create", "CreateOrUpdate", "CreateIfNotExists"}[g.r.Intn(3)]
+				id := target(60)
+				gv, _ := apiFor(id.kind, false)
+				d.Object = objectOf(gv, id.kind, id.ns, id.name)
+				d.AsString = asString()
+				addIdent(id)
+			case k < 40:
+				d.Operation = []string{"DeleteInBackground", "DeleteNonCascading"}[g.r.Intn(2)]
+				if g.r.Chance(fgPct) {
+					d.Operation = "Delete"
+				}
+				id := target(85)
+				d.Kind, d.Namespace, d.Name = id.kind, id.ns, id.name
+				d.APIVersion, d.NoAPIVer = apiFor(id.kind, true)
+			default:
+				id := target(88)
+				d.Kind, d.Namespace, d.Name = id.kind, id.ns, id.name
+				d.APIVersion, d.NoAPIVer = apiFor(id.kind, true)
+				d.Sub = g.pick(subs)
+				d.Ignore = g.r.Chance(30)
+				switch {
+				case k < 62:
+					d.Operation = "MergePatch"
+					d.Merge = g.mergePatch()
+					d.AsString = asString()
+				case k < 80:
+					d.Operation = "JSONPatch"
+					d.JP = g.jsonPatch()
+					d.AsString = asString()
+				default:
+					d.Operation = "JQPatch"
+					d.JQ = g.jq()
+				}
+			}
+			in.Docs = append(in.Docs, d)
+		}
+	}
+	return in
+}
+
+func widget(gv, name string, data map[string]any) map[string]any {
+	return map[string]any{"apiVersion": gv, "kind": "Widget", "metadata": map[string]any{"name": name, "namespace": "default"}, "data": data}
+}
+
+// SessionCorpus: small witnesses of the class (run first).
+func SessionCorpus() []core.In[Input] {
+	const a, b = "example.io/v1", "legacy.example.io/v1"
+	two := []Reg{{GV: a, Kind: "Widget"}, {GV: b, Kind: "Widget"}}
+	both := []map[string]any{widget(a, "w1", map[string]any{"owner": "nobody"}), widget(b, "w1", map[string]any{"owner": "nobody"})}
+	owner := func(v string) map[string]any { return map[string]any{"data": map[string]any{"owner": v}} }
+	mp := func(exec int, api, v string) Doc {
+		return Doc{Exec: exec, Operation: "MergePatch", Kind: "Widget", Namespace: "default", Name: "w1", APIVersion: api, NoAPIVer: api == "", Merge: owner(v)}
+	}
+	jq := func(exec int, api, v string) Doc {
+		return Doc{Exec: exec, Operation: "JQPatch", Kind: "Widget", Namespace: "default", Name: "w1", APIVersion: api, NoAPIVer: api == "",
+			JQ: &JQ{Kind: "set", Path: []string{"data", "owner"}, Value: v}}
+	}
+	del := func(exec int, api string) Doc {
+		return Doc{Exec: exec, Operation: "DeleteInBackground", Kind: "Widget", Namespace: "default", Name: "w1", APIVersion: api, NoAPIVer: api == ""}
+	}
+	ins := []Input{
+		// one file: the same kind with two explicit apiVersions
+		{Session: true, Registry: two, Initial: both, Docs: []Doc{mp(0, a, "first"), mp(0, b, "second")}},
+		// two executions: explicit non-preferred, then no apiVersion (= preferred)
+		{Session: true, Registry: two, Initial: both, Docs: []Doc{jq(0, b, "first"), jq(1, "", "second")}},
+		// no apiVersion, then explicit non-preferred; the other registration order
+		{Session: true, Registry: []Reg{two[1], two[0]}, Initial: both, Docs: []Doc{mp(0, "", "first"), del(1, a)}},
+		// patch in one group, delete in the other
+		{Session: true, Registry: two, Initial: both, Docs: []Doc{mp(0, a, "first"), del(0, b)}},
+		// create in the group that does not hold the name yet, others untouched; through the operator
+		{Session: true, Registry: two, Initial: both[:1], Operator: "yaml",
+			Docs: []Doc{{Exec: 0, Operation: "Create", Object: widget(b, "w1", map[string]any{"owner": "me"})}, del(1, ""), mp(2, b, "third")}},
+		// a kind / apiVersion the cluster does not serve: an error, the rest of the file still applies
+		{Session: true, Registry: two, Initial: both, Docs: []Doc{mp(0, "nope.example.io/v1", "x"),
+			{Exec: 0, Operation: "DeleteInBackground", Kind: "Gadget", Namespace: "default", Name: "w1", NoAPIVer: true}, mp(0, b, "second")}},
+		// an invalid document in the second execution: the first and the third are applied
+		{Session: true, Registry: two, Initial: both, Docs: []Doc{mp(0, b, "first"), mp(1, a, "lost"), {Exec: 1, Operation: "MergePatch", Bad: "missingKind"}, mp(2, "", "third")}},
+	}
+	var out []core.In[Input]
+	for _, in := range ins {
+		out = append(out, core.In[Input]{Input: in, Stream: "session-corpus"})
+	}
+	return out
+}
+
+// genSessions appends the streams of the session class.
+func genSessions(g *gen, tier string, ins []core.In[Input]) []core.In[Input] {
+	ins = append(ins, SessionCorpus()...)
+	n, fgPct, opEvery, nUnserved := 100, 0, 8, 16
+	switch tier {
+	case "thorough":
+		n, fgPct, opEvery, nUnserved = 1500, 1, 12, 150
+	case "search":
+		n, fgPct, opEvery, nUnserved = 700, 0, 12, 60
+	}
+	for i := 0; i < n; i++ {
+		intPct := 0
+		if i%6 == 5 {
+			intPct = 50
+		}
+		in := g.session(intPct, fgPct, 0)
+		if i%opEvery == 0 {
+			in.Operator = []string{"json", "yaml"}[(i/opEvery)%2]
+		}
+		ins = append(ins, core.In[Input]{Input: in, Stream: "session"})
+		if i%4 == 0 {
+			bad := in
+			bad.Docs = append([]Doc{}, in.Docs...)
+			p := g.r.Intn(len(bad.Docs))
+			fs := FaultsFor(bad.Docs[p].Operation)
+			bad.Docs[p].Bad = fs[g.r.Intn(len(fs))]
+			ins = append(ins, core.In[Input]{Input: bad, Stream: "session-single-fault"})
+		}
+	}
+	for i := 0; i < nUnserved; i++ {
+		ins = append(ins, core.In[Input]{Input: g.session(0, 0, 25), Stream: "session-unserved"})
+	}
+	return ins
 }
 
 func Extra() map[string]any {
@@ -1116,11 +1809,13 @@ func Extra() map[string]any {
 		"observed":        "per rendering: parse ok, ordered API calls (verb, object, subresource), apply errors mapped to {AlreadyExists, NotFound, PatchFailed, JqFailed, Other}, final cluster sorted by kind/namespace/name projected to metadata.{name,namespace,labels,annotations} + data",
 		"fault_kinds":     "unknownOperation noOperation syntax missingObject emptyObject objectIsNumber objectIsArray missingKind missingName emptyName missingJqFilter missingMergePatch emptyMergePatch mergePatchIsArray missingJsonPatch emptyJsonPatch jsonPatchItemNoPath jsonPatchIsObject",
 		"strings_as_text": "object / mergePatch / jsonPatch are given inline, as a YAML string or as a JSON string",
+		"session_class":   "second case class (tag class:session): the fake cluster additionally serves Widget and Gadget, each in a random ordered non-empty subset of example.io/v1, legacy.example.io/v1, apps.example.org/v1beta1 (CRDs registered in a shuffled order: the discovery order, hence the preferred groupVersion of each kind, varies); objects are identified by groupVersion|Kind/namespace/name and the initial cluster mostly holds the same name in several groups; 1-3 executions of 1-3 documents each go one after the other through ONE ObjectPatcher against one cluster (sampled: through one operator, one hook run per execution); delete / patch documents carry no apiVersion (30 %) or one of the serving groupVersions, stream session-unserved also groupVersions that do not serve the kind; observed per execution: parse ok, API calls with the groupVersion they went to, errors, the whole cluster",
+		"fake_discovery":  "the fake client has no discovery cache; where the real client invalidates it and reports 'not supported by cluster' the fake dereferences nil: the harness's client wrapper turns exactly that into the real client's error",
 	}
 }
 
 var Driver = core.Driver[Input, Obs]{
-	Spec: core.Spec{Property: "C13", Imports: []string{"Json", "C13_Model", "C13_Spec", "C13_Corr"}, Corr: "C13_Corr", ShrinkKey: "docs",
-		Rule: "streams of 1-7 operation documents over 2 kinds x 2 namespaces x 3 names against a random initial cluster, each rendered as JSON and as YAML; streams: corpus, valid, valid-with-integers (integers inside objects), single-fault (a valid stream with one document made invalid, every position in thorough); non-trivial = >=2 documents, or 1 document against a non-empty cluster; distinct = distinct input JSON"},
-	Gen: Gen, Run: Run, Render: Render, PerShard: 40, Workers: 12, CaseTimout: 60 * time.Second, Extra: Extra,
+	Spec: core.Spec{Property: "C13", Imports: []string{"Json", "C13_Model", "C13_Spec", "C13_GModel", "C13_GSpec", "C13_Corr"}, Corr: "C13_Corr", ShrinkKey: "docs",
+		Rule: "streams of 1-7 operation documents over 2 kinds x 2 namespaces x 3 names against a random initial cluster, each rendered as JSON and as YAML; streams: corpus, valid, valid-with-integers (integers inside objects), single-fault (a valid stream with one document made invalid, every position in thorough); non-trivial = >=2 documents, or 1 document against a non-empty cluster; sessions (streams session-corpus, session, session-single-fault, session-unserved): 1-3 executions of 1-3 documents through one ObjectPatcher on a cluster serving Widget / Gadget in 1-3 API groups each, non-trivial = >=2 documents; distinct = distinct input JSON"},
+	Gen: Gen, Run: Run, Render: Render, PerShard: 24, Workers: 12, CaseTimout: 60 * time.Second, Extra: Extra,
 }
